@@ -41,6 +41,15 @@ def case(ctx, rng, idx, state):
     dK = rng.uniform(-0.5, 1.5, 3) if rng.random() < 0.3 else rng.uniform(0, 1, 3) / np.array(NK)
     if rng.random() < 0.15:
         dK = np.zeros(3)
+    dkclass = "generic" if np.any(dK) else "zero"
+    if rng.random() < 0.3:
+        # shifts that are tiny but not zero (1e-9 .. 1e-3 of the reciprocal cell, some components exactly 0 or next to a grid
+        # step / a whole reciprocal vector): a shortcut "the grid is unshifted" taken on a tolerance shows up here (seed C02_b)
+        mag = 10.0 ** rng.uniform(-9, -3, 3) * rng.choice([-1, 1], 3)
+        base = [np.zeros(3), np.ones(3) / np.array(NK), np.ones(3), np.zeros(3)][int(rng.integers(4))]
+        dK = base + mag * (rng.random(3) < 0.7)
+        dkclass = "tiny" if np.any(dK) else "zero"
+    ctx.count(f"dK_{dkclass}")
     aliasing = bool(np.any(np.abs(iR).max(axis=0) * 2 + 1 > np.array(NK)))
     kgrid = np.array([(i / NK[0], j / NK[1], k / NK[2]) for i in range(NK[0]) for j in range(NK[1]) for k in range(NK[2])])
     kall = kgrid + dK[None, :]
@@ -48,11 +57,14 @@ def case(ctx, rng, idx, state):
     ksel = np.arange(nk) if nk <= 24 else np.sort(rng.choice(nk, 24, replace=False))
     libs = ["fftw", "numpy"] + (["slow"] if nk <= 48 else [])
     ders = [0, 1, 2, 3] if nk * nw * nw * len(iR) < 60000 else [0, 1, 2]
-    wit = dict(history=hist, nw=nw, NK=NK, dK=dK, nR=len(iR), centers=cmode, keys=keys, aliasing=aliasing)
+    wit = dict(history=hist, nw=nw, NK=NK, dK=dK, dK_class=dkclass, nR=len(iR), centers=cmode, keys=keys, aliasing=aliasing)
 
     # a second grid shift for the same grid: one Rvectors object is re-used for every library and both shifts (a history of
     # set_fft_R_to_k calls on one object), and fresh copies are used as well
     dK2 = rng.uniform(0, 1, 3) / np.array(NK)
+    if rng.random() < 0.3:
+        dK2 = 10.0 ** rng.uniform(-9, -3, 3) * rng.choice([-1, 1], 3) * (rng.random(3) < 0.7)
+        ctx.count("dK_second_shift_tiny")
     kall2 = kgrid + dK2[None, :]
     ref, ref2 = {}, {}
     for key in keys:
